@@ -473,3 +473,146 @@ Proof.
     rewrite map_map. apply qsum_map_ext. intros p _. symmetry.
     apply (trees_partition hasw cr edges p Hinc Hlen). exact Hb.
 Qed.
+
+(* ================= binnings that cross a process boundary (worker processes, copies) ================= *)
+Require Import Lqa.
+
+Lemma qlist_eqb_nth l1 l2 :
+  qlist_eqb l1 l2 = true -> length l1 = length l2 /\ forall k, nth k l1 0 == nth k l2 0.
+Proof.
+  unfold qlist_eqb. revert l2. induction l1 as [|x l1 IH]; intros [|y l2]; simpl; try discriminate.
+  - intros _. split; [reflexivity|]. intros [|k]; reflexivity.
+  - rewrite andb_true_iff. intros [Hxy H]. apply IH in H. destruct H as [Hl Hn].
+    split; [lia|]. intros [|k]; [apply Qeq_bool_iff; exact Hxy|apply Hn].
+Qed.
+
+(* what was sent and what arrived are equal: every redshift is put into the same bins *)
+Theorem transport_sound cr e cr' e' :
+  binning_eqb (cr, e) (cr', e') = true ->
+  forall b z, member cr e b z <-> member cr' e' b z.
+Proof.
+  unfold binning_eqb. simpl. rewrite andb_true_iff. intros [Hc He] b z.
+  apply Bool.eqb_prop in Hc. subst cr'. apply qlist_eqb_nth in He. destruct He as [Hl Hn].
+  unfold member, edge. rewrite Hl. pose proof (Hn b) as H0. pose proof (Hn (S b)) as H1.
+  destruct cr; split; intros [Hlen [A B]]; (split; [exact Hlen|]);
+    first [rewrite <- H0, <- H1; split; assumption | rewrite H0, H1; split; assumption].
+Qed.
+
+(* one bin as a set of rationals determines its two edges ... *)
+Lemma interval_determines (cr : bool) a0 a1 b0 b1 :
+  a0 < a1 -> b0 < b1 ->
+  (forall z, (if cr then a0 < z /\ z <= a1 else a0 <= z /\ z < a1) <->
+             (if cr then b0 < z /\ z <= b1 else b0 <= z /\ z < b1)) ->
+  a0 == b0 /\ a1 == b1.
+Proof.
+  intros Ha Hb H. destruct cr; simpl in H.
+  - assert (P : b0 < a1 /\ a1 <= b1) by (apply H; split; lra).
+    assert (P' : a0 < b1 /\ b1 <= a1) by (apply H; split; lra).
+    split; [|lra].
+    destruct (Qlt_le_dec a0 b0) as [L|L].
+    + assert (b0 < b0 /\ b0 <= b1) by (apply H; split; lra). lra.
+    + destruct (Qlt_le_dec b0 a0) as [L'|L']; [|lra].
+      assert (a0 < a0 /\ a0 <= a1) by (apply H; split; lra). lra.
+  - assert (P : b0 <= a0 /\ a0 < b1) by (apply H; split; lra).
+    assert (P' : a0 <= b0 /\ b0 < a1) by (apply H; split; lra).
+    split; [lra|].
+    destruct (Qlt_le_dec a1 b1) as [L|L].
+    + assert (a0 <= a1 /\ a1 < a1) by (apply H; split; lra). lra.
+    + destruct (Qlt_le_dec b1 a1) as [L'|L']; [|lra].
+      assert (b0 <= b1 /\ b1 < b1) by (apply H; split; lra). lra.
+Qed.
+
+(* ... and its closed side *)
+Lemma interval_closed_side a0 a1 b0 b1 :
+  a0 < a1 -> b0 < b1 ->
+  ~ (forall z, (a0 < z /\ z <= a1) <-> (b0 <= z /\ z < b1)).
+Proof.
+  intros Ha Hb H.
+  assert (P : b0 <= a1 /\ a1 < b1) by (apply H; split; lra).
+  assert (P' : a0 < b0 /\ b0 <= a1) by (apply H; split; lra).
+  assert (P'' : a0 < (a1 + b1) * (1#2) /\ (a1 + b1) * (1#2) <= a1) by (apply H; split; lra). lra.
+Qed.
+
+Lemma increasing_step e k : increasing e -> (S k < length e)%nat -> edge e k < edge e (S k).
+Proof. intros H Hk. unfold edge. apply increasing_nth_lt; [exact H|lia|exact Hk]. Qed.
+
+(* the membership relation of a binning determines the binning: a transport (pickling to a worker
+   process, copying into a result) keeps the bin of every redshift exactly when the closed side and
+   every edge arrive unchanged *)
+Theorem member_determines_binning cr cr' e e' :
+  increasing e -> increasing e' -> (2 <= length e)%nat -> (2 <= length e')%nat ->
+  (forall b z, member cr e b z <-> member cr' e' b z) ->
+  cr = cr' /\ length e = length e' /\ forall k, (k < length e)%nat -> edge e k == edge e' k.
+Proof.
+  intros Hi Hi' Hl Hl' H.
+  (* a value inside bin b of one binning shows that the other has a bin b *)
+  assert (Hin : forall c l b, increasing l -> (S b < length l)%nat ->
+                 member c l b (if c then edge l (S b) else edge l b)).
+  { intros c l b Hl0 Hb. pose proof (increasing_step l b Hl0 Hb). unfold member.
+    split; [exact Hb|]. destruct c; split; lra. }
+  assert (Hlen : length e = length e').
+  { assert (length e <= length e')%nat.
+    { pose proof (Hin cr e (length e - 2)%nat Hi ltac:(lia)) as M. apply H in M. destruct M as [M _]. lia. }
+    assert (length e' <= length e)%nat.
+    { pose proof (Hin cr' e' (length e' - 2)%nat Hi' ltac:(lia)) as M. apply H in M. destruct M as [M _]. lia. }
+    lia. }
+  (* bin b as an interval, on both sides *)
+  assert (Hbin : forall b, (S b < length e)%nat -> forall z,
+            (if cr then edge e b < z /\ z <= edge e (S b) else edge e b <= z /\ z < edge e (S b)) <->
+            (if cr' then edge e' b < z /\ z <= edge e' (S b) else edge e' b <= z /\ z < edge e' (S b))).
+  { intros b Hb z. specialize (H b z). unfold member in H. rewrite <- Hlen in H. tauto. }
+  assert (Hc : cr = cr').
+  { pose proof (increasing_step e 0 Hi ltac:(lia)) as A. pose proof (increasing_step e' 0 Hi' ltac:(lia)) as B.
+    pose proof (Hbin 0%nat ltac:(lia)) as H0.
+    destruct cr, cr'; try reflexivity; exfalso.
+    - exact (interval_closed_side _ _ _ _ A B H0).
+    - apply (interval_closed_side _ _ _ _ B A). intro z. symmetry. apply H0. }
+  subst cr'. split; [reflexivity|]. split; [exact Hlen|].
+  intros k Hk.
+  assert (Hedges : forall b, (S b < length e)%nat -> edge e b == edge e' b /\ edge e (S b) == edge e' (S b)).
+  { intros b Hb. apply (interval_determines cr).
+    - apply increasing_step; assumption.
+    - apply increasing_step; [assumption|lia].
+    - apply Hbin; exact Hb. }
+  destruct (Nat.eq_dec (S k) (length e)) as [E|E].
+  - destruct k as [|k]; [lia|]. apply (Hedges k). lia.
+  - apply (Hedges k). lia.
+Qed.
+
+(* flipping the closed side changes the bin of exactly the edge-valued redshifts: the upper edge of
+   bin k belongs to bin k only under closed = right, the lower edge only under closed = left, and a
+   redshift that is no edge lies in the same bins under both *)
+Theorem closed_flip_on_edges e k :
+  increasing e -> (S k < length e)%nat ->
+  member true e k (edge e (S k)) /\ ~ member false e k (edge e (S k)) /\
+  member false e k (edge e k) /\ ~ member true e k (edge e k) /\
+  (forall z, ~ z == edge e k -> ~ z == edge e (S k) -> (member true e k z <-> member false e k z)).
+Proof.
+  intros Hi Hk. pose proof (increasing_step e k Hi Hk) as A. unfold member.
+  split; [split; [exact Hk|split; lra]|].
+  split; [intros [_ [_ B]]; lra|].
+  split; [split; [exact Hk|split; lra]|].
+  split; [intros [_ [B _]]; lra|].
+  intros z N0 N1. split; intros [_ [B C]]; (split; [exact Hk|]); split.
+  - lra.
+  - destruct (Qlt_le_dec z (edge e (S k))) as [L|L]; [exact L|]. exfalso. apply N1. lra.
+  - destruct (Qlt_le_dec (edge e k) z) as [L|L]; [exact L|]. exfalso. apply N0. lra.
+  - lra.
+Qed.
+
+(* the checker evaluated by the harness on every observed transport is sound: code 0 means that the
+   binning that arrived puts every redshift into the bins of the binning that was sent *)
+Lemma code4_zero a b c d : code [a; b; c; d] = 0%nat -> a = true /\ b = true /\ c = true /\ d = true.
+Proof. destruct a, b, c, d; vm_compute; intro H; try discriminate H; repeat split. Qed.
+
+Theorem transport_case_sound cr e cr' e' :
+  c10_transport_case cr e cr' e' = 0%nat ->
+  increasing e /\ (2 <= length e)%nat /\ cr = cr' /\
+  forall b z, member cr e b z <-> member cr' e' b z.
+Proof.
+  unfold c10_transport_case. intro H. apply code4_zero in H. destruct H as [Hc [He [_ Hh]]].
+  apply andb_true_iff in Hh. destruct Hh as [Hi Hl].
+  apply increasingb_spec in Hi. apply Nat.leb_le in Hl.
+  split; [exact Hi|]. split; [exact Hl|]. split; [apply Bool.eqb_prop; exact Hc|].
+  apply transport_sound. unfold binning_eqb. simpl. rewrite Hc, He. reflexivity.
+Qed.
